@@ -329,6 +329,8 @@ def eval_int(v, env):
             return max(x - y, 0)
         if op == 'abs_diff':
             return abs(x - y)
+        if op == 'tz':
+            return y if x == 0 else (x & -x).bit_length() - 1
     if op == 'BitNot' and len(a) == 2:
         x = eval_int(a[0], env)
         if x is None or a[1] not in INT_RANGES_ALL:
